@@ -57,6 +57,11 @@ def generate(seed, tier):
         elif x < 0.95:
             ops.append({'op': 'relay_invalid_block', 'kind': rng.choice(['reward_plus_one', 'sig_other_key', 'ts_equal_parent', 'ev_sample']),
                         'a': rng.randrange(1000), 'b': rng.randrange(1000), 'peer': rng.randrange(3)})
+        elif x < 0.975:
+            # the networking thread is half-way through disconnecting a peer (socket unregistered, peer still listed) while the
+            # miner thread goes on: a found block is broadcast in that window
+            ops.append({'op': 'peer_mid_disconnect', 'which': rng.randrange(3)})
+            ops.append({'op': 'cycle', 'm': rng.randrange(miners)})
         else:
             ops.append({'op': 'clock', 'dt': rng.choice([100, 1000, 5000, 31_000, 120_000])})
     cfg = {'base': 'hreal', 'hard': rng.random() < 0.5, 'build': build, 'miners': miners, 'bots': rng.randint(1, 3),
@@ -336,7 +341,7 @@ def execute(script):
             for bid, counts0, greeted0 in pending_broadcast:
                 after = w.count_block_messages(bid)
                 for key, (n, c) in after.items():
-                    if id(c) not in greeted0 or c.closed:
+                    if id(c) not in greeted0 or c.closed or id(c) in excluded_conns:
                         continue
                     delta = n - counts0.get(key, 0)
                     if delta != 1:
@@ -356,11 +361,26 @@ def execute(script):
             if err is not None:
                 raise RuntimeError('harness: miner thread died: %r' % (err,))
 
+        half_closed = []
+        excluded_conns = set()
+
+        def finish_disconnect():
+            # the networking thread completes what it had started
+            while half_closed:
+                v_ = half_closed.pop()
+                try:
+                    v_.sock.close()
+                    node.lp.network_manager.handle_peer_disconnected(v_)
+                except Exception:
+                    pass
+
         for op in script['ops']:
             if res.violations or stop['now'] or node.loop_error:
                 break
             kind = op['op']
             res.events += 1
+            if half_closed and kind not in ('cycle', 'watcher_step', 'miner_step'):
+                finish_disconnect()
             if kind == 'miner_step':
                 miner_step(op.get('m', 0))
             elif kind == 'watcher_step':
@@ -439,6 +459,18 @@ def execute(script):
                         if ids_before - set(w.cm.coinstate.block_by_hash.keys()):
                             stop['rollback_seen'] = True
                             res.bump('probe:rollback_dropped_blocks')
+            elif kind == 'peer_mid_disconnect':
+                nm = node.lp.network_manager
+                act = [p_ for p_ in nm.connected_peers.values() if p_.hello_sent and p_.hello_received and p_.sock in node.lp.selector.get_map()]
+                if len(act) >= 2 and not half_closed:
+                    victim = act[op.get('which', 0) % (len(act) - 1)]      # not the last one: a healthy peer comes after it
+                    node.lp.selector.unregister(victim.sock)
+                    half_closed.append(victim)
+                    for b_ in w.bots:
+                        for c_ in b_.conns:
+                            if c_.sock.peer is victim.sock:
+                                excluded_conns.add(id(c_))
+                    res.bump('probe:peer_half_way_through_disconnect')
             elif kind == 'clock':
                 w.settle(op.get('dt', 1000))
             # whatever happens afterwards, a block this node found stays in the chain state it serves
